@@ -131,8 +131,37 @@ class FnCtx:
         ty = "int" if op == "!" else T.promote(plat, self.ty(a))
         return self.mk("un", op=op, a=a, ty=ty)
 
+    def mix_ok(self, t1, t2):
+        """Operand types whose implicit conversion cppcheck models the way C defines it.
+
+        cppcheck stores the value of an operand of a binary operator / assignment after converting it to
+        max(size) bytes with the sign of the larger operand (the LEFT one if the sizes are equal) whenever the signs
+        differ (lib/vf_settokenvalue.cpp truncateImplicitConversion).  That is the C conversion only if this type is
+        the common type, or if it includes both operand types (then it changes nothing).  Other combinations
+        (unsigned char + signed char, int + unsigned int, short + unsigned short, ...) give wrong values - a defect
+        reported by the pinned programs of C01, kept out of the random population."""
+        plat = self.p.plat
+        if t1 not in T.RANK or t2 not in T.RANK or T.signed(plat, t1) == T.signed(plat, t2):
+            return True
+        n1, n2 = T.bits(plat, t1), T.bits(plat, t2)
+        s = T.signed(plat, t2) if n1 < n2 else T.signed(plat, t1)
+        b = max(n1, n2)
+        ct = T.common(plat, t1, t2)
+        if (T.bits(plat, ct), T.signed(plat, ct)) == (b, s):
+            return True
+        lo, hi = (-(1 << (b - 1)), (1 << (b - 1)) - 1) if s else (0, (1 << b) - 1)
+        return lo <= min(T.tmin(plat, t1), T.tmin(plat, t2)) and max(T.tmax(plat, t1), T.tmax(plat, t2)) <= hi
+
+    def fixmix(self, a, b):
+        """Make operand b compatible with a (explicit cast to a's type) when the pair is not mix_ok."""
+        ta, tb = self.ty(a), self.ty(b)
+        if self.mix_ok(ta, tb):
+            return b
+        return self.cast(ta, b)
+
     def bin(self, op, a, b):
         plat = self.p.plat
+        b = self.fixmix(a, b)
         ta, tb = self.ty(a), self.ty(b)
         if ta == "ptr" or tb == "ptr":
             assert op in ("==", "!=")
@@ -146,9 +175,12 @@ class FnCtx:
         return self.mk("bin", op=op, a=a, b=b, ty=ty)
 
     def cond(self, c, a, b):
+        b = self.fixmix(a, b)
         return self.mk("cond", a=c, b=a, c=b, ty=T.common(self.p.plat, self.ty(a), self.ty(b)))
 
     def asg(self, op, lv, e):
+        if op != "=":
+            e = self.fixmix(lv, e)
         return self.mk("asg", op=op, a=lv, b=e, ty=self.ty(lv))
 
     def inc(self, op, prefix, lv):
@@ -192,7 +224,9 @@ class Gen:
         r = self.rng
         if not self.chance(self.knob("types")):
             return "int"
-        cands = ["char", "schar", "uchar", "short", "ushort", "int", "uint"]
+        cands = ["schar", "uchar", "short", "ushort", "int", "uint"]
+        if self.plat == "p16":
+            cands.append("char")      # spec/p16.xml declares plain char signed; unix64 leaves it open
         if wide:
             cands += ["long", "ulong"]
         return r.choice(cands)
@@ -297,7 +331,15 @@ class Gen:
         if x < 0.72:
             return self.cmp(c, depth - 1, exclude)
         if x < 0.78:
-            return c.un(r.choice(["-", "~", "!"]), self.nonlit(c, depth - 1, exclude))
+            e = self.nonlit(c, depth - 1, exclude)
+            op = r.choice(["-", "~", "!"])
+            ne = c.p.N(e)
+            if op == "~" and (ne["k"] in ("land", "lor") or (ne["k"] == "bin" and ne["op"] in CMP) or (ne["k"] == "un" and ne["op"] == "!")
+                              or T.RANK.get(ne["ty"], 9) < T.RANK["int"]):
+                # cppcheck's impossible values for ~(a<b) and for ~ of an operand narrower than int ignore the promotion
+                # to int (pinned programs); kept out of the random population
+                op = "!"
+            return c.un(op, e)
         if x < 0.86:
             return c.cond(self.condition(c, depth - 1, exclude), self.expr(c, depth - 1, exclude), self.expr(c, depth - 1, exclude))
         if x < 0.94:
@@ -380,9 +422,10 @@ class Gen:
             return self.st_assign(c)
         i = r.choice(ws)
         x = r.random()
+        uns = not T.signed(self.plat, c.vty(i))
         if x < 0.35:
-            return c.stmt_expr(c.inc(r.choice(["++", "--"]), self.chance(0.5), c.var(i)))
-        op = r.choice(ASGOPS)
+            return c.stmt_expr(c.inc("++" if uns else r.choice(["++", "--"]), self.chance(0.5), c.var(i)))
+        op = r.choice([o for o in ASGOPS if not (uns and o == "-=")])
         if op in ("<<=", ">>="):
             e = c.num(r.choice([1, 2, 3, 4, 8]))
         elif op in ("/=", "%="):
@@ -403,10 +446,11 @@ class Gen:
         x = r.choice(xs)
         y = r.choice([i for i in ys if i != x])
         k = r.random()
+        uns = not T.signed(self.plat, c.vty(x))
         if k < 0.6:
-            inner = c.inc(r.choice(["++", "--"]), self.chance(0.5), c.var(x))
+            inner = c.inc("++" if uns else r.choice(["++", "--"]), self.chance(0.5), c.var(x))
         else:
-            inner = c.asg(r.choice(["=", "+=", "-="]), c.var(x), self.expr(c, 1, exclude=(x, y), nonneg_lit=True))
+            inner = c.asg(r.choice(["=", "+="] if uns else ["=", "+=", "-="]), c.var(x), self.expr(c, 1, exclude=(x, y), nonneg_lit=True))
         k = r.random()
         if k < 0.4:
             e = inner
